@@ -19,6 +19,15 @@ TextJudge(e) == IF Has(e.r, "panic") THEN Fail("C02", "Parse/" \o e.entry \o "/p
                 ELSE Obl("C02", e.sc, <<e.entry, "valid-form">>)
 ConsJudge(e) == IF Has(e, "panic") THEN Fail("C02", "Construct/" \o e.what \o "/panic", e.sc, e.panic) ELSE Obl("C03", e.sc, <<"constructor-refused", e.what>>)
 BatchJudge(e) == Obl("C02", e.sc, <<e.kind, e.type, e.tried > 0, e.ok > 0>>) /\ Emit([t |-> "BATCH", kind |-> e.kind, tried |-> e.tried, err |-> e.err, ok |-> e.ok, panic |-> e.panic])
+\* C03 on bytes the library EMITTED for a value built through the typed API, whatever its own decoder then makes of them
+EmitCheck(ty, b, sc) ==
+  IF ~(HasSchema(ty) /\ TxPart(ty)) THEN TRUE
+  ELSE LET it == Parse(b) IN
+       IF IsErr(it) THEN Fail("C03", "Emit/" \o ty \o "/malformed", sc, [bytes |-> b, why |-> it.why])
+       ELSE LET c == Conforms(Schema, ty, it, "write") IN IF c = OK THEN TRUE ELSE Fail("C03", "Emit/" \o ty \o "/" \o c[Len(c)], sc, [bytes |-> b])
+\* A typed Mint is a LIST of (policy, assets) entries in the order the caller inserted them; the statements promise canonical key order
+\* for asset bundles and for the mint field the BUILDER emits (C16), not for a Mint value the caller filled in another order.
+OrderIsCallers(e, c) == Has(e, "constructed") /\ e.constructed = "mint_pairs" /\ c[Len(c)] = "table-keys-not-canonical"
 Judge(e) ==
   LET sc == e.sc r == e.r ty == e.type gen == ~Has(e, "mut") IN
   \* input class for failure signatures: how the specification's own parser sees the input
@@ -27,7 +36,7 @@ Judge(e) ==
   ELSE IF Has(r, "panic") THEN Fail("C02", "Parse/panic/" \o InClass(e["in"]), sc, [ty |-> ty, why |-> r.panic, input |-> e["in"]])
   ELSE IF ~Has(r, "ok") THEN
        \* a value BUILT through the typed API must decode from its own bytes; a generated instance may be refused (noted)
-       (IF Has(e, "constructed") THEN Fail("C01", "Roundtrip/" \o ty \o "/own-bytes-do-not-decode/constructed-" \o e.constructed, sc, [bytes |-> e["in"], err |-> r.err])
+       (IF Has(e, "constructed") THEN Fail("C01", "Roundtrip/" \o ty \o "/own-bytes-do-not-decode/constructed-" \o e.constructed, sc, [bytes |-> e["in"], err |-> r.err]) /\ EmitCheck(ty, e["in"], sc)
         ELSE IF gen THEN Note("C01", "generated-instance-not-accepted", sc, [ty |-> ty]) ELSE TRUE)
   ELSE IF Has(e, "constructed_same") /\ e.constructed_same = "no" THEN
        \* the value was BUILT through the typed API (constructors, setters): decoding its serialization has to give it back
@@ -50,7 +59,8 @@ Judge(e) ==
           /\ (gen /\ HasSchema(ty) /\ TxPart(ty) /\ ~IsErr(it) =>
                 LET c == Conforms(Schema, ty, it, "write") IN
                 /\ Obl("C03", sc, <<ty, it.mt, Len(it.kids)>>)
-                /\ IF c = OK THEN TRUE ELSE Fail("C03", "Emit/" \o ty \o "/" \o c[Len(c)], sc, [bytes |-> b]))
+                /\ IF c = OK THEN TRUE ELSE IF OrderIsCallers(e, c) THEN Note("C03", "typed Mint written in the caller's insertion order", sc, [ty |-> ty])
+                   ELSE Fail("C03", "Emit/" \o ty \o "/" \o c[Len(c)], sc, [bytes |-> b]))
           \* C17: JSON form. fr = OK: the instance is in the form a value built through the typed API is written in; otherwise its last
           \* element says which retained encoding detail / unsupported content the instance has, and the demand is adapted to it.
           /\ (Has(r, "json") =>
